@@ -305,3 +305,4 @@ def run(ctx):
 
     from engine.run import borrow
     borrow(ctx, 'C07', ['UNINIT-SERIAL'], 'stack residue serialised into a header is whatever earlier library calls - on this or any other handle - left there: the file then depends on the process history')
+    borrow(ctx, 'C13', ['UNION-INIT'], 'stack residue in a chunk marker makes the file bytes depend on what the process did before')
